@@ -90,7 +90,7 @@ def record(mem):
     return inv, res, deps
 
 
-def _scenario(parents, styles, resource_root, premem_mask, root_batch, store):
+def _scenario(parents, styles, resource_root, premem_mask, root_batch, store, second_only=False):
     n = len(parents)
     src = gen_source(parents, styles, resource_root)
     note(src.count("\n"))
@@ -133,6 +133,10 @@ def _scenario(parents, styles, resource_root, premem_mask, root_batch, store):
         for i in range(1, n):
             if premem_mask & (1 << (i - 1)):
                 kept.append(i)
+                if second_only and STYLES[styles[i]] in ("batch", "batch-dup"):
+                    # of a batched sub-call only the LATER element stays memoized: an unmemoized element precedes a memoized one
+                    cover("unmemoized-batch-element-before-a-memoized-one")
+                    fns[i].forget(1)
                 continue
             fns[i].forget_all()
         if kept:
@@ -164,17 +168,17 @@ def _shape(n, p2, p3):
 @obligation(
     "C10.trees",
     covers=("some-subcalls-memoized-before", "all-subcalls-memoized-before", "batched-subcall", "failing-subcall", "repeated-subcall",
-            "depth3", "resource"),
+            "depth3", "resource", "unmemoized-batch-element-before-a-memoized-one"),
     split={"store": [0, 1, 2], "s1": [0, 1, 2, 3, 4, 5]},
     bounds="call trees over N=4 nodes (all 6 parent arrays), each sub-call made plain / through call_batch (2 distinct elements, or 3 with a repeated one) / through partial / "
            "twice / failing-and-caught, root obtains a file resource or not, root invoked singly or as a batch, x every subset (8) of sub-calls "
-           "memoized beforehand; 3 stores. Quick tier: the style of node 3 is tied to node 2's (thorough: free)",
+           "memoized beforehand (for batched sub-calls also: only the later element memoized); 3 stores. Quick tier: the style of node 3 is tied to node 2's (thorough: free)",
     variables="choice: parents (2), styles (3), resource bit, root batch bit, pre-memoized mask",
-    budget_s={"quick": 170, "thorough": 1200},
+    budget_s={"quick": 300, "thorough": 1200},
     tier_args={"quick": {"free3": False}, "thorough": {"free3": True}},
     choice_vars=8,
 )
-def trees(p2: int, p3: int, s1: int, s2: int, s3: int, res: bool, root_batch: bool, premem: int, store: int, free3: bool):
+def trees(p2: int, p3: int, s1: int, s2: int, s3: int, res: bool, root_batch: bool, premem: int, second_only: bool, store: int, free3: bool):
     parents = _shape(4, p2, p3)
     s2 = pick(s2, len(STYLES))
     if free3:
@@ -182,6 +186,11 @@ def trees(p2: int, p3: int, s1: int, s2: int, s3: int, res: bool, root_batch: bo
     else:
         s3 = (s2 + 1) % len(STYLES)
     premem = pick(premem, 8)
+    if STYLES[s1] in ("batch", "batch-dup"):
+        so = True if second_only else False
+    else:
+        assume(not second_only)
+        so = False
     rr = True if res else False
     rb = True if root_batch else False
     styles = [None, s1, s2, s3]
@@ -196,7 +205,7 @@ def trees(p2: int, p3: int, s1: int, s2: int, s3: int, res: bool, root_batch: bo
             cover("depth3")
         if rr:
             cover("resource")
-        _scenario(parents, styles, rr, premem, rb, STORES[store])
+        _scenario(parents, styles, rr, premem, rb, STORES[store], so)
 
 
 # ------------------------------------------------------------------------------------------------
